@@ -1414,17 +1414,21 @@ class Sink:
         return 0
 
 
-def overflow_publish(proto=4):
-    """publish(topic of 1 byte, payload of 268435455 bytes): accepted, remaining length 268435458. ~3 s, ~0.6 GB"""
+def overflow_publish(proto=4, qos=1):
+    """publish(topic of 1 byte, payload of 268435455 bytes): len(payload) passes the old check, the remaining length
+    (268435458 + 2 for QoS > 0) does not.  Repaired behaviour: ValueError before any state change."""
     c, s = connected(proto)
     sink = Sink()
     c._sock = sink
+    c._last_mid = 41
     try:
-        info = c.publish("t", bytes(RL_MAX), 0)
-        rc = int(info.rc)
+        info = c.publish("t", bytes(RL_MAX), qos)
+        d = {"rc": int(info.rc)}
     except Exception as e:       # the repaired behaviour
-        return {"raised": type(e).__name__, "head": sink.head.hex(), "written": sink.n}
-    return {"rc": rc, "head": sink.head.hex(), "written": sink.n}
+        d = {"raised": type(e).__name__}
+    d.update(head=sink.head.hex(), written=sink.n, last_mid_after=c._last_mid, stored=len(c._out_messages),
+             inflight=c._inflight_messages)
+    return d
 
 
 def overflow_subscribe():
@@ -1450,6 +1454,9 @@ def overflow_violation(d, case):
         return {"case": case, "what": f"oversized packet not rejected: {d}", "signature": SIG_OVER}
     if "raised" not in d:
         return {"case": case, "what": f"oversized packet neither rejected nor written: {d}", "signature": SIG_OVER}
+    if d.get("last_mid_after", 41) != 41 or d.get("stored", 0) or d.get("inflight", 0):
+        return {"case": case, "what": f"oversized PUBLISH rejected only after the client state changed (packet id consumed / message stored): {d}",
+                "signature": "overflow-rejected-late"}
     return None
 
 
